@@ -141,8 +141,15 @@ def filter_match_fn(fn_text, m, keep, log):
     return fn_text[:rel] + "".join(pieces) + fn_text[rel + len(body):]
 
 
-OPS3 = ["ADD", "SUB", "MUL", "DIV", "MOD", "AND", "OR", "XOR", "SLL", "SRL", "EQ", "GT", "LT"]
-Z3 = {"MUL", "DIV", "MOD"}
+OPS3 = ["ADD", "SUB", "MUL", "DIV", "MOD", "EXP", "MLOG", "AND", "OR", "XOR", "SLL", "SRL", "EQ", "GT", "LT"]
+HARD = {"MUL", "DIV", "MOD", "EXP", "MLOG"}
+UFSTUBS = {
+    "MUL": "#[kani::stub(u64::checked_mul, uf::checked_mul)] #[kani::stub(vm_alu::prim_mul128, uf::prim_mul128)] ",
+    "DIV": "#[kani::stub(u64::checked_div, uf::checked_div)] #[kani::stub(vm_alu::prim_div, uf::prim_div)] ",
+    "MOD": "#[kani::stub(u64::checked_rem, uf::checked_rem)] #[kani::stub(vm_alu::prim_rem, uf::prim_rem)] ",
+    "EXP": "#[kani::stub(u64::checked_pow, uf::checked_pow)] #[kani::stub(vm_alu::prim_pow, uf::prim_pow)] ",
+    "MLOG": "#[kani::stub(u64::checked_ilog, uf::checked_ilog)] #[kani::stub(vm_alu::prim_ilog, uf::prim_ilog)] ",
+}
 LOGRE = r"log\(&format!\((?:[^()]|\([^()]*\))*\)\);"
 
 
@@ -169,13 +176,19 @@ def build(tier):
     rep["VirtualOp"] = filter_enum(rep["VirtualOp"], KEEP, rewrites)
     for n in ("def_registers", "def_const_registers", "has_side_effect", "use_registers_mut"):
         rep["vop_" + n] = filter_match_fn(rep["vop_" + n], fr["m_" + n], KEEP, rewrites)
+    # R9: table view of def_registers / def_const_registers -- the same match, returning the Vec it builds before `.into_iter().collect()`
+    for n in ("def_registers", "def_const_registers"):
+        t = rep["vop_" + n]
+        t = vf.rewrite_once(t, r"fn %s\(&self\) -> BTreeSet<&VirtualRegister>" % n, "fn %s_table(&self) -> Vec<&VirtualRegister>" % n, "R9", rewrites, regex=True)
+        t = vf.rewrite_once(t, r"\)\s*\.into_iter\(\)\s*\.collect\(\)", ")", "R9", rewrites, regex=True)
+        rep["vop_" + n + "_table"] = t
     for k in list(rep):
         if k.startswith("CONST_"):
             rep[k] = re.sub(r"^pub\(crate\)", "pub", rep[k])
     hs, obs = [], []
     for op in OPS3:
-        z = "#[kani::solver(z3)] " if op in Z3 else ""
-        hs.append("#[kani::proof] #[kani::unwind(7)] #[kani::stub(KnownValues::remove_reg_and_dependents, spec_remove_reg_and_dependents)] #[kani::stub(ResetKnown::apply, spec_apply)] #[kani::stub(VirtualOp::has_side_effect, spec_has_side_effect)] %sfn step_%s() { check(VirtualOp::%s(any_writable(), any_readable(), any_readable()), false) }" % (z, op.lower(), op))
+        z = UFSTUBS.get(op, "")
+        hs.append("#[kani::proof] #[kani::unwind(7)] #[kani::stub(KnownValues::remove_reg_and_dependents, spec_remove_reg_and_dependents)] #[kani::stub(ResetKnown::apply, spec_apply)] #[kani::stub(VirtualOp::has_side_effect, spec_has_side_effect)] %sfn step_%s() { check(VirtualOp::%s(any_writable(), any_readable(), any_readable()), %s) }" % (z, op.lower(), op, "true" if op in ("EXP", "MLOG") else "false"))
         obs.append(vf.Ob("step_%s" % op.lower(), "C07", panic_prop="C17",
                          what="constant_propagate on %s: rewritten op has the same VM outcome (value, $of, $err, panic) for every register file and $flag; every fact kept is true" % op))
     for op in ("NOT", "MOVE"):
@@ -184,12 +197,18 @@ def build(tier):
     hs.append("#[kani::proof] #[kani::unwind(7)] #[kani::stub(KnownValues::remove_reg_and_dependents, spec_remove_reg_and_dependents)] #[kani::stub(ResetKnown::apply, spec_apply)] #[kani::stub(VirtualOp::has_side_effect, spec_has_side_effect)] fn step_movi() { let i: u32 = kani::any(); kani::assume(i as u64 <= compiler_constants::EIGHTEEN_BITS); "
               "check(VirtualOp::MOVI(any_writable(), VirtualImmediate18 { value: i }), false) }")
     obs.append(vf.Ob("step_movi", "C07", panic_prop="C17", what="constant_propagate on MOVI (incl. MOVI->NOOP): same VM outcome; facts kept are true"))
-    obs.append(vf.Ob("remove_refines_contract", "C07", panic_prop="C17",
-                     what="KnownValues::remove_reg_and_dependents equals its contract (spec function) on every abstract state; the step obligations use the contract via stubbing"))
-    obs.append(vf.Ob("has_side_effect_refines_contract", "C07", panic_prop="C17",
-                     what="VirtualOp::has_side_effect (real table) equals its contract on the ALU class: true iff dst is a constant register"))
-    obs.append(vf.Ob("apply_refines_contract", "C07", panic_prop="C17",
-                     what="ResetKnown::apply with the real def_registers/def_const_registers tables equals its contract for every ALU-class op and Jump; the step obligations use the contract via stubbing"))
+    for n, w in (("uf_facts_mul", "checked_mul/128-bit product: relation, commutativity, zero and one laws"), ("uf_facts_div_rem", "x/1, x%1, zero divisor gives None (checked_div/rem are `if b == 0 {None} else {Some(a / b)}` by definition in std)"), ("uf_facts_div_zero_left", "0/x, 0%x"),
+                 ("uf_facts_pow", "x^0, x^1, 1^e, 0^e of overflowing_pow and checked_pow")):
+        obs.append(vf.Ob(n, "C07", panic_prop="C17", what="facts assumed of the uninterpreted arithmetic hold of the real std operations: " + w))
+    obs.append(vf.Ob("apply_on_jump", "C07", panic_prop="C17", what="ResetKnown::Defs on a Jump pseudo-op removes only $of/$err"))
+    hs.append("#[kani::proof] #[kani::unwind(33)] fn def_tables() { def_tables_check() }")
+    obs.append(vf.Ob("def_tables", "C07", panic_prop="C17", what="the def_registers / def_const_registers tables (real match arms) give [dst] and [$of,$err] for every ALU-class opcode, [] and [$of,$err] for NOOP"))
+    STUBS2 = "#[kani::stub(VirtualOp::def_registers, def_registers_by_insert)] #[kani::stub(VirtualOp::def_const_registers, def_const_registers_by_insert)] "
+    if tier == "thorough":
+        for g in range(4):
+            lo, hi = g * 8, min(31, g * 8 + 8)
+            hs.append("#[kani::proof] #[kani::unwind(9)] %sfn hse_group%d() { has_side_effect_refines_contract(%d, %d) }" % (STUBS2, g, lo, hi))
+            obs.append(vf.Ob("hse_group%d" % g, "C07", panic_prop="C17", what="VirtualOp::has_side_effect (real body over the real def table) == contract: true iff dst is a constant register; opcodes #%d..%d" % (lo, hi - 1)))
     for k, v in rep.items():
         src = src.replace("@%s@" % k, v)
     src = src.replace("@HARNESSES@", "\n    ".join(hs))
@@ -197,7 +216,7 @@ def build(tier):
     if left:
         raise vf.Undecided("c07 template placeholders left: %s" % left[:5])
     u = vf.KaniUnit("c07_constprop", {"src/lib.rs": src, "src/vm_alu.rs": open(vf.ROOT + "/spec/vm_alu.rs").read()}, obs,
-                    deps={"either": "1"}, timeout_s=1500, jobs=8)
+                    deps={"either": "1"}, timeout_s=1200, jobs=9)
     u.fragments = [vf.frag_record(v) for k, v in fr.items()]
     u.rewrites = rewrites + [{"rule": "R1", "before": "derives/visibility of extracted enums, structs, consts", "after": "plain derives, pub", "times": 15},
                              {"rule": "slice", "before": "use-register loop (loop #2 of constant_propagate) and the JNZ rewrite (text between that loop and the macro)", "after": "copied by byte offsets", "times": 2}]
@@ -206,8 +225,11 @@ def build(tier):
         "rustc_hash::FxHashMap replaced by an association list with the same API subset (get/insert/remove/extract_if/retain/clear/contains_key)",
         "Op reduced to {opcode, owning_span}; Span, CompileError, Label, DataId are carriers",
         "register file of the harness: 2 virtual registers + $zero,$one,$of,$err,FuncArg0 (the only bound of this unit; covers every aliasing pattern of dst/l/r and Eq chains of length 2)",
-        "MROO (checked_nth_root, f64::powf) is not claimed and stubbed to None; EXP/MLOG verified in a separate unit with std pow/ilog under contract stubs",
+        "MROO (checked_nth_root, f64::powf) is not claimed and stubbed to None",
+        "MUL/DIV/MOD/EXP/MLOG harnesses: u64::checked_{mul,div,rem,pow,ilog} and the oracle's primitives are one uninterpreted function each (contract stubs) known only to satisfy the zero/one/commutativity facts, which uf_facts_* prove of the real std operations; assumed without proof: checked_pow(a,e)=Some(v) <=> overflowing_pow(a,e)=(v,false), checked_ilog = ilog where defined",
         "FuelVM ALU oracle spec/vm_alu.rs",
+        "ASSUMED contracts (spec functions in the unit, used by the step obligations through -Z stubbing, NOT discharged: CBMC does not finish on std's BTreeSet bulk build / heap worklist -- 43 GB resp. >15 min per instance): KnownValues::remove_reg_and_dependents == spec_remove_reg_and_dependents; ResetKnown::apply == spec_apply",
+        "has_side_effect's contract is assumed in the quick tier and discharged in the thorough tier (hse_group*), over BTreeSets built by insertion instead of collect()",
     ]
     u.heavy = True
     return [u]
